@@ -87,7 +87,7 @@ DefaultRuleNames == <<"remove_spaces", "remove_comments", "compute_expression", 
 \* strings are opaque to TLA+: validity of globs / regexes / identifiers / numerals is tabulated over the sample universe
 InvalidGlobs   == {"[", "**a", "{a"}
 InvalidRegexes == {"(", "[a"}
-InvalidIdents  == {"not valid", "1x", "$lune", "$Roblox", "$defaults", "$"}      \* incl. `$name` entries that are not one of the two groups
+InvalidIdents  == {"not valid", "1x", "$lune", "$Roblox", "$defaults", "$", "end", ""}      \* incl. `$name` entries that are not one of the two groups
 ValidGlob(p)  == p \notin InvalidGlobs
 ValidRegex(p) == p \notin InvalidRegexes
 ValidIdent(p) == p \notin InvalidIdents
@@ -262,6 +262,8 @@ ParseBundle(bes, lax) ==
   IF ~NoDup(bes) \/ ~(Keys(bes) \subseteq {"require_mode", "modules_identifier", "excludes"}) \/ ~Has(bes, "require_mode") THEN BadBundle
   ELSE IF ~ModeOf(Get(bes, "require_mode"), FALSE).ok THEN BadBundle
   ELSE IF Has(bes, "modules_identifier") /\ Get(bes, "modules_identifier").ty \notin {"str", "null"} THEN BadBundle
+  \* the name of the variable that holds the bundled modules is written into the code: it has to be a Lua name
+  ELSE IF Has(bes, "modules_identifier") /\ Get(bes, "modules_identifier").ty = "str" /\ ~ValidIdent(Get(bes, "modules_identifier").v[1]) THEN BadBundle
   ELSE IF Has(bes, "excludes") /\ Get(bes, "excludes").ty # "strs" THEN BadBundle
   ELSE IF Has(bes, "excludes") /\ ~(lax /\ DevBundleExcludesUnchecked) /\ \E i \in DOMAIN Get(bes, "excludes").v : ~ValidGlob(Get(bes, "excludes").v[i]) THEN BadBundle
   ELSE [ok |-> TRUE, b |-> [on |-> TRUE, mode |-> ModeOf(Get(bes, "require_mode"), FALSE),
